@@ -11,6 +11,18 @@ def hook_commits():
 TECH = "deterministic simulation with fault injection"
 
 CHECKS = {
+ "C01": dict(engine="storesim", cat="exploration",
+   text="The real sierradb::Database runs under the storesim simulator (client futures polled by a hand-rolled executor, simulated sync timer and clocks, fsync ledger through hook points). Seeded histories of valid / conflicting / oversized / bad-timestamp / I/O-failing appends, reopens and clock jumps on swarm configurations; at every acknowledgement the ledger must show the transaction's last byte fsynced, all four read APIs must return it identically with no writer progress in between, and a power-loss image (everything unsynced dropped) reopened must still contain every acknowledged transaction.",
+   note="Sequential scheduler: one operation in flight (concurrent acks are C15/C16/C20). Power-loss images are built from the ledger, not by the kernel; index files of sealed segments are taken as written (their crash states are C06).",
+   technique=TECH + ": seeded operation histories on the real store with fsync ledger, injected append I/O errors, clock jumps and power-loss reopen at acknowledgement points", ref="§4 C01"),
+ "C02": dict(engine="storesim", cat="exploration",
+   text="Same engine; seeded histories weighted towards expectation variety (every ExpectedVersion kind right and wrong, repeated streams in one transaction, several streams/partitions per bucket, expected partition sequences, same-bucket key conflicts, reopens, held/released index flushes). A 150-line reference event-log model decides accept/reject and its class for every append; versions and sequences are diffed after every step and full scans periodically, after reopen and at the end.",
+   note="Model and store are compared on rejection classes, not messages. Space rejections (SegmentFull) are C19's subject and are not flagged here.",
+   technique=TECH + ": seeded histories on the real store diffed step by step against a reference event-log model, across reopens and rollovers", ref="§4 C02"),
+ "C03": dict(engine="storesim", cat="exploration",
+   text="Same engine; histories of accepted appends laid out across block-cache and read-buffer boundaries and 1-12 segments; at 3-6 checkpoints (sealed-segment index flush held, released, after reopen) every stream and partition is scanned from a sweep of start positions in both directions with batch sizes 1..len+5 and compared with the model (forward: exactly model[start..]; reverse: set equality with model[..=start], transaction-contiguous groups, decreasing order).",
+   note="The sweep is exhaustive in start position only for streams/partitions of <=12 events, sampled above. Known finding listed: reverse scans starting inside a transaction return later siblings.",
+   technique=TECH + ": seeded histories plus scan-parameter sweeps at scheduler-controlled checkpoints (index flush held/released, reopen) against a reference model", ref="§4 C03"),
  "C17": dict(engine="storesim", cat="fault_enumeration",
    text="Seeded segments written by the real seglog Writer; per target record every single-bit flip, bursts of 2..32 bits and every truncation length are applied to the stored bytes of the real file and each is checked through random read, sequential read, iteration, parse_record and Writer::open (never Ok, never a panic; predecessors intact; writer resumes after the last intact record). Exhaustive per sampled record below the caps, sampled above.",
    note="Trusts the harness's byte-level fault application and the model of what was appended; CRC collisions for multi-bit faults outside the enumerated classes are not searched.",
